@@ -6,7 +6,7 @@
 // utils::longid() returns an id no live process has, Vars as a map.
 //@@ unit U-start
 //@@ default props=C20 rewrites=R1,R2,R3,R5,R13,R15 ghost="Tracked(sa): Tracked<&mut StartAbs>" ghostarg="Tracked(sa)"
-//@@ heapmethods find_model longid proc_lookup new_process load launch start set_auto_complete_flag set_auto_complete fill_inputs
+//@@ heapmethods push_proc find_model longid proc_lookup new_process load launch start set_auto_complete_flag set_auto_complete fill_inputs
 use vstd::prelude::*;
 use std::sync::Arc;
 verus! {
@@ -90,6 +90,7 @@ pub tracked struct StartAbs {
     pub ghost live: Set<Seq<char>>,                  // ids of the processes the cache / store know
     pub ghost launched: Seq<Launch>,
     pub ghost waiting: Seq<bool>,                    // SubflowPackage: `$auto_complete` written to the calling act (false = waits for the return)
+    pub ghost stored_unstarted: Seq<Seq<char>>,      // processes written to the cache / store BEFORE their launch (state none: Cache::restore starts every such process it finds)
 }
 #[verifier::external_body]
 pub struct Process { _p: u8 }
@@ -109,8 +110,15 @@ impl Process {
     pub fn load(&self, w: &Workflow, Tracked(sa): Tracked<&mut StartAbs>) -> (r: Result<()>)
         ensures r is Ok ==> self.loaded() == Some((w.id@, w.inputs@)), *final(sa) == *old(sa) { unimplemented!() }
 }
+// the cache as far as a start could use it besides the lookup (Cache::push_proc is under contract in U-cache: it writes the process to the store)
 #[verifier::external_body]
-pub struct Runtime { _p: u8 }
+pub struct CacheS { _p: u8 }
+impl CacheS {
+    #[verifier::external_body]
+    pub fn push_proc(&self, proc: &Arc<Process>, Tracked(sa): Tracked<&mut StartAbs>)
+        ensures *final(sa) == (StartAbs { stored_unstarted: old(sa).stored_unstarted.push(proc.s_id()), live: old(sa).live.insert(proc.s_id()), ..*old(sa) }) { unimplemented!() }
+}
+pub struct Runtime { pub cache: Arc<CacheS> }
 impl Runtime {
     // R7: `self.cache.proc(&proc_id, self)` -- cache lookup with lazy load from the store
     #[verifier::external_body]
